@@ -422,6 +422,7 @@ fn rvalue_json<'tcx>(cx: &mut Cx<'tcx>, env: TypingEnv<'tcx>, body: &Body<'tcx>,
                     items.push(("adt", jstr(&cx.path(def))));
                     let variant = adt.variant(vi);
                     items.push(("variant", jstr(&variant.name.to_string())));
+                    items.push(("vidx", vi.as_usize().to_string()));
                     items.push(("is_enum", adt.is_enum().to_string()));
                     if let Some(a) = active {
                         fnames.push(jstr(&variant.fields[a].name.to_string()));
